@@ -8,7 +8,7 @@
     Makefile) built against wrappers generated from the current tree.
 """
 from .. import core
-from ..exec import callcheck, structs_e2e, upstream
+from ..exec import callcheck, members_e2e, structs_e2e, upstream
 
 LEVEL = "exploration"
 
@@ -36,6 +36,8 @@ def run(ctx):
     callcheck.run_template_family(ctx, "c", 4 if quick else 50)
     # struct arguments and results (struct.rst): by value, by pointer in / out / inout, result by value and by pointer
     structs_e2e.run_structs(ctx, "c", 8 if quick else 150)
+    # class member variables through the generated getter / setter functions (also of a derived class)
+    members_e2e.run_members(ctx, "c", 4 if quick else 80)
     names = upstream.target_lists()["c"]
     for name, res in zip(names, core.pool_map(_up_job, names)):
         ctx.case(label="upstream-testc")
@@ -54,4 +56,6 @@ def replay(ctx, rec):
         return
     if "struct_case" in c:
         return structs_e2e.replay_case(ctx, rec)
+    if "member_case" in c:
+        return members_e2e.replay_case(ctx, rec)
     callcheck.replay_case(ctx, rec)
